@@ -216,6 +216,33 @@ def directed_author(rng, cfg, scope):
     return author(u["name"], [list(b"service=shell"), list(b"cmd=show")])
 
 
+def many_args_scenarios(rng, tag, n):
+    """session authorization requests with very many distinct arguments that all name one configured service whose
+    conditions the request satisfies: whatever the reply is built from, the request must get exactly one reply"""
+    out = []
+    tries = 0
+    while len(out) < n and tries < 50 * n:
+        tries += 1
+        cfg = policy_cfg(rng, tag)
+        cands = [(u, s) for u in cfg["users"] if "s1" in u["scopes"] for s in u["services"] + [s for g in u["groups"] for s in g["services"]]]
+        if not cands:
+            continue
+        u, s = rng.choice(cands)
+        sep = rng.choice(["=", "*"])
+        args = [("service" + sep + s["name"]).encode()]
+        for m in s["match"]:
+            if m["name"] == "scope":
+                continue
+            if m["values"]:
+                args.append((m["name"] + "=" + m["values"][0]).encode())
+        k = rng.choice([60, 100, 128, 129, 200, 254 - len(args)])
+        args += [("k%d%s%s" % (i, rng.choice("=*"), s["name"].strip())).encode() for i in range(k)]
+        p = author(u["name"], [list(a) for a in args][:255])
+        steps = session_steps(1, 0, [(p, 0, [])]) + session_steps(1, 1, [(author(u["name"], [list(b"service=shell"), list(b"cmd=show")]), 0, [])])
+        out.append({"id": "manyargs-%d" % len(out), "cfg": cfg, "conns": [{"c": 1, "addr": "10.1.0.5"}], "steps": steps, "iso": False, "log": False})
+    return out
+
+
 def author_script(rng, cfg, scope, tag):
     if rng.random() < 0.6:
         return [(directed_author(rng, cfg, scope), rng.randint(0, 1), [])]
@@ -501,6 +528,8 @@ def collect(ctx, prop):
     if prop == "C09":
         scen += exhaustive_c09(rng, tag, 300 if quick else 6000)
         scen += overlap_c09(rng, tag, 150 if quick else 3000)
+    if prop in ("C07", "C11"):
+        scen += many_args_scenarios(rng, tag, 40 if quick else 600)
     if prop == "C12":
         scen += overlap_c12(rng, tag, 200 if quick else 4000)
     if prop == "C10":
